@@ -82,6 +82,13 @@ CLAIMED["C09"] = ("DESIGN.md §4 C09",
     "serialised clone of the client's request whose only mutations are the stripped URI and X-Forwarded-For = origin address; the load-balancer guard is dropped before the "
     "request; round-robin indexes with the pre-increment value and wraps at len. Timing itself is not decided.")
 
+CLAIMED["C10"] = ("DESIGN.md §4 C10",
+    "R-TABLE (opcode table vs RFC 6455 §11.8; header bit masks vs encoder shifts; length-form thresholds normalised), R-CALLS (read_exact only, errors mapped), R-DOM (which length form under which range; Text/Binary by the text flag)",
+    "Decides: opcode discriminants and TryFrom<u8> equal RFC 6455 and reject reserved opcodes; decoder masks (0x80/0x40/0x20/0x10/0x0F, 0x80/0x7F) pair with encoder shifts (7,6,5,4 / 7); "
+    "encoder uses the 7-bit form below 126, 126+u16 BE below 65536, else 127+u64 BE; decoder reads 2 bytes for 126 and 8 for 127 big-endian; blocking decoders read only with "
+    "read_exact mapped to an error; unmasking uses key[i % 4]; Message::to_frame picks Text/Binary by the text flag and serialises the frame. The byte-level round trip for all "
+    "payloads is not decided.")
+
 NOT_YET = {}
 
 NOT_APPLICABLE = {
